@@ -191,7 +191,7 @@ REORG_STYLES = ["unconf_asc", "unconf_desc", "best_fork", "unconf_best"]
 FWD_STYLES = ["txfirst", "bestfirst", "skip_txfirst", "skip_bestfirst", "dup", "redundant", "split", "mix"]
 
 
-def random_schedule(rng, tree, targets, reloads):
+def random_schedule(rng, tree, targets, reloads, claims=None):
     """One schedule for a history (targets + restart points): the interface (Listen / Confirm) may
     change only across a restart."""
     trans = []
@@ -208,15 +208,15 @@ def random_schedule(rng, tree, targets, reloads):
                 ops = [x for o in ops for x in ([o, {"op": "drain"}] if rng.random() < drain_p else [o])]
         else:
             ops = confirm_ops(rng, tree, old, t, rng.choice(REORG_STYLES), rng.choice(FWD_STYLES), drain_p)
-        trans.append({"reload": reload_, "ops": ops})
+        trans.append({"reload": reload_, "claim": bool(claims and claims[i]), "ops": ops})
         old = t
     return {"order": rng.choice(ORDERS), "trans": trans}
 
 
-def canonical_schedule(tree, targets, reloads):
+def canonical_schedule(tree, targets, reloads, claims=None):
     trans, old = [], 0
     for i, t in enumerate(targets):
-        trans.append({"reload": bool(reloads[i]), "ops": canonical_ops(tree, old, t)})
+        trans.append({"reload": bool(reloads[i]), "claim": bool(claims and claims[i]), "ops": canonical_ops(tree, old, t)})
         old = t
     return {"order": "mon_first", "trans": trans}
 
@@ -321,8 +321,16 @@ def sweep_histories(meta, ard):
     out = []
     avail = [r + 1 for r, ok in enumerate(meta["roles"]) if ok]
     h1 = max(1, meta["minh"][0])
+    variants = []
     for r in avail:
         hr = h1 if r == 1 else max(h1 + 1, meta["minh"][r - 1])
+        variants.append((r, hr))
+        # also after the height from which the node's own time-locked claims are pending (so that the
+        # role competes with, or splits, a claim that is already out)
+        late = max(hr, meta["minh"][1])
+        if r != 1 and late != hr:
+            variants.append((r, late))
+    for r, hr in variants:
 
         def place(n, extra=None):
             txs = [[] for _ in range(n)]
@@ -363,6 +371,32 @@ def sweep_histories(meta, ard):
             seen.add(k)
             res.append((t, tg))
     return res
+
+
+def late_histories(ard):
+    """The preimage of the inbound HTLC is learned k blocks after the commitment (role 1, block 1)
+    confirmed; j more blocks; then the last d blocks are reorganised away (the commitment stays
+    confirmed) and a competing branch of two blocks follows."""
+    out = []
+    for k in range(0, 8):
+        for j in (0, 1):
+            for d in (1, 2, 3):
+                la = 1 + k + j
+                if d > la - 1 or la + 2 > 12:
+                    continue
+                parent = list(range(la)) + [la - d, la + 1]
+                txs = [[1]] + [[] for _ in range(la + 1)]
+                targets, claims = [1], [False]
+                if k > 0:
+                    targets.append(1 + k)
+                    claims.append(False)
+                nxt = [la] if j > 0 else []
+                nxt += [la - d, la + 1, la + 2]
+                for q, t in enumerate(nxt):
+                    targets.append(t)
+                    claims.append(q == 0)
+                out.append((Tree(parent, txs), targets, claims))
+    return out
 
 
 def chain_key(scen, tree, tip):
@@ -417,7 +451,12 @@ def convert_tlc(rng, s):
 # ----------------------------------------------------------------------------- the check
 
 TRACE_MODULE, TRACE_CFG = "ChainViewTrace", "ChainViewTrace.cfg"
-KNOWN_KEY = "PendingClaims_LostOnRewind"
+KNOWN_KEY = "PendingClaims_LostOnRewind"       # first, broad record: equivalent to classes A + B
+CLAIM_KEYS = {"A": "ClaimLost_CommitmentReconfirmedLowerViaConfirm",
+              "B": "ClaimLost_HolderCommitmentBroadcastAfterFundingReorg",
+              "C": "ClaimLost_LatePreimageOnHolderCommitment",
+              "D": "ClaimLost_LatePreimageAfterCommitmentFinal",
+              "E": "ClaimLost_HolderCommitmentBroadcastBeforeLateConfirmation"}
 PANIC_KEYS = [("pending_claim_requests.get(&claim_id).is_none()", "panic_duplicate_locktimed_claim_after_commitment_reorg")]
 ENV_OPS = ("conn", "disc", "txs", "best", "unconf", "begin", "reload", "reset")
 MC_ACTIONS = ["MPlain", "MBegin", "MRestart", "MConnect", "MDisconnect", "MTxs", "MUnconfirm", "MBest", "MSync"]
@@ -438,11 +477,13 @@ class Plan:
         self.hists = {}      # key -> dict(scen, tree, targets, reloads, scheds[])
         self.order = []
 
-    def add(self, scen, tree, targets, reloads, sched, origin):
-        key = (scen, tuple(tree.parent), tuple(tuple(t) for t in tree.txs), tuple(targets), tuple(reloads))
+    def add(self, scen, tree, targets, reloads, sched, origin, claims=None):
+        claims = list(claims) if claims else [False] * len(targets)
+        key = (scen, tuple(tree.parent), tuple(tuple(t) for t in tree.txs), tuple(targets), tuple(reloads), tuple(claims))
         h = self.hists.get(key)
         if h is None:
-            h = {"scen": scen, "tree": tree, "targets": targets, "reloads": reloads, "scheds": [], "origin": origin}
+            h = {"scen": scen, "tree": tree, "targets": targets, "reloads": reloads, "claims": claims,
+                 "scheds": [], "origin": origin}
             self.hists[key] = h
             self.order.append(key)
         if sched is not None:
@@ -465,6 +506,8 @@ class Plan:
 def batch_scripts(hists, first_hist_id):
     scripts, seen = [], set()
     for h in hists:
+        if any(h["claims"]):
+            continue
         for t in h["targets"]:
             k = chain_key(h["scen"], h["tree"], t)
             if k not in seen and k[1]:
@@ -474,7 +517,7 @@ def batch_scripts(hists, first_hist_id):
     for h in hists:
         hid += 1
         scripts.append(mk_script(h["scen"], h["tree"], h["targets"],
-                                 canonical_schedule(h["tree"], h["targets"], h["reloads"]), "canon", hid))
+                                 canonical_schedule(h["tree"], h["targets"], h["reloads"], h["claims"]), "canon", hid))
         for sc in h["scheds"]:
             scripts.append(mk_script(h["scen"], h["tree"], h["targets"], sc, "sched", hid))
     return scripts, hid
@@ -520,7 +563,10 @@ def selftest_on(wd, trace_path, env):
         if evs[0]["kind"] != "canon":
             continue
         syncs = [e for e in evs if e["ev"] == "sync"]
-        if any(s["f"]["irrev"] for s in syncs) and any(s["f"]["mrel"] for s in syncs) and len(syncs) >= 2:
+        if any(e["ev"] in ("disc", "reload") for e in evs):
+            continue        # keep it simple: a history without reorganisation or restart
+        first_irr = next((k for k, s in enumerate(syncs) if s["f"]["irrev"]), None)
+        if first_irr is not None and first_irr >= 1 and any(s["f"]["mrel"] for s in syncs):
             others = [x for x in by_run if by_run[x][0]["kind"] == "sched" and by_run[x][0]["hist"] == evs[0]["hist"]]
             if others:
                 pick = (run, others[0])
@@ -582,10 +628,10 @@ def selftest_on(wd, trace_path, env):
             for r in m:
                 f.write(json.dumps(r) + "\n")
         _, fails = vlib.validate_trace(PID, TRACE_MODULE, TRACE_CFG, p, max_failures=1, tag="st", env=env)
-        names.append(name)
+        names.append(name + ("" if fails else ":ACCEPTED"))
         if fails:
             rejected += 1
-    if len(muts) < 5 or rejected != len(muts):
+    if len(muts) < 6 or rejected != len(muts):
         raise vlib.ToolError("binding self-test: %d of %d corrupted traces rejected (%s)" % (rejected, len(muts), names))
     return {"mutations": len(muts), "rejected": rejected, "kinds": names}
 
@@ -644,6 +690,9 @@ def run(tier, seed):
     if ard != cfg_ard():
         raise vlib.ToolError("ANTI_REORG_DELAY of the code (%d) differs from the specs' ARD" % ard)
     metas = {m["name"]: m for m in desc["scenarios"]}
+    for m in metas.values():
+        if m.get("late"):
+            m["roles"][2] = False   # the node's own preimage-claim transaction does not exist before it claims
 
     # ---- 1. environment check + behaviours from TLC
     mcs, tlc_scripts = [], []
@@ -687,6 +736,16 @@ def run(tier, seed):
             for _ in range(per_hist):
                 plan.add(n, tree, targets, reloads, random_schedule(rng, tree, targets, reloads), "sweep")
                 n_sweep += 1
+    n_late = 0
+    for n in names:
+        if not metas[n].get("late"):
+            continue
+        for tree, targets, claims in late_histories(ard):
+            reloads = [False] * len(targets)
+            plan.add(n, tree, targets, reloads, None, "late", claims)
+            for _ in range(per_hist if thorough else 2):
+                plan.add(n, tree, targets, reloads, random_schedule(rng, tree, targets, reloads, claims), "late", claims)
+                n_late += 1
     nrand = 1500 if thorough else 150
     for k in range(nrand):
         n = names[k % len(names)]
@@ -695,14 +754,23 @@ def run(tier, seed):
         if not targets or not tree_valid(tree, metas[n]):
             continue
         reloads = [False] + [rng.random() < 0.25 for _ in targets[1:]]
-        plan.add(n, tree, targets, reloads, None, "random")
+        claims = [False] * len(targets)
+        if metas[n].get("late") and len(targets) > 1:
+            claims[rng.randrange(1, len(targets))] = True
+        plan.add(n, tree, targets, reloads, None, "random", claims)
         for _ in range(per_hist):
-            plan.add(n, tree, targets, reloads, random_schedule(rng, tree, targets, reloads), "random")
+            plan.add(n, tree, targets, reloads, random_schedule(rng, tree, targets, reloads, claims), "random", claims)
             n_rand += 1
 
     # ---- 3. real code, batch by batch; 4. trace validation (the oracle)
-    known = any(k.get("property") == PID and k.get("key") == KNOWN_KEY for k in vlib.load_known())
-    env = {"C11_WAIVE": "1"} if known else {}
+    known_keys = {k.get("key") for k in vlib.load_known() if k.get("property") == PID}
+    classes = {c for c, key in CLAIM_KEYS.items() if key in known_keys}
+    if KNOWN_KEY in known_keys:
+        classes |= {"A", "B"}
+    classes |= set(os.environ.get("VERIF_C11_ASSUME_KNOWN", ""))     # for rehearsals before a key is recorded
+    env = {"C11_WAIVE_" + c: "1" for c in classes}
+    known = bool(classes)
+    waived_by_class = {}
     nviol = total_events = total_runs = total_syncs = total_calls = panics = waived = 0
     first_ok_trace, sample_scripts, ok_traces = None, [], []
     panic_seen = {}
@@ -733,7 +801,12 @@ def run(tier, seed):
                                            tag="b%d" % bi, max_failures=8)
         total_events += total
         out = open(os.path.join(wd, "tlc-trace-b%d1.out" % bi)).read() if known else ""
-        waived += out.count('<<"WAIVED"')
+        for ln in out.splitlines():
+            if ln.startswith('<<"WAIVED"'):
+                waived += 1
+                for c in "ABCDE":
+                    if '"%s"' % c in ln.split(",", 3)[-1]:
+                        waived_by_class[c] = waived_by_class.get(c, 0) + 1
         if not fails:
             ok_traces.append(tpath)
             first_ok_trace = first_ok_trace or tpath
@@ -767,12 +840,6 @@ def run(tier, seed):
                 canon_run -= 1
             diff = diff_conclusions(fl["run_events"], by_run.get(canon_run, []), ev.get("idx", 0)) if ev.get("ev") == "sync" else {}
             key = None
-            if fl["inv"] == "PendingClaimsDeliveryIndependent" and not known:
-                # the recorded class: claims of the canonical delivery are missing in this schedule
-                d = diff.get("R.claims")
-                ops = lambda sigs: {tuple(o) for g in sigs for o in g}
-                if d and ops(d["this_schedule"]) <= ops(d["canonical"]):
-                    key = KNOWN_KEY
             name = "b%d-run%d" % (bi, fl["run"])
             what = "panic" if ev.get("ev") == "panic" else (fl["inv"] or "unmatched event")
             vlib.log("[reject] batch %d run %d (%s, %s) at %s: %s" % (bi, fl["run"], script["scen"], script["kind"], ev.get("ev"), what))
@@ -785,8 +852,9 @@ def run(tier, seed):
                                      "harness/target/debug/chainsync --scripts s.ndjson --out t.ndjson; "
                                      "tools/tv.sh ChainViewTrace t.ndjson"}, key=key):
                 nviol += 1
-    if known and waived:
-        vlib.log("KNOWN-FINDING: property=%s %s (%d synchronisation points waived)" % (PID, KNOWN_KEY, waived))
+    for c in sorted(waived_by_class):
+        vlib.log("KNOWN-FINDING: property=%s %s (class %s of lost pending claims; %d synchronisation points waived)"
+                 % (PID, CLAIM_KEYS[c], c, waived_by_class[c]))
     if total_runs == 0 or total_syncs == 0:
         raise vlib.ToolError("nothing was executed")
 
@@ -809,10 +877,11 @@ def run(tier, seed):
                      "action_coverage": r["coverage"], "wall_s": round(r["wall_s"], 1)} for c, r in mcs],
         "histories": len(plan.hists), "schedules_other_than_canonical": nsched,
         "schedules_from_tlc": n_tlc, "schedules_threshold_sweep": n_sweep, "schedules_random": n_rand,
+        "schedules_late_preimage": n_late,
         "starting_states": names, "sync_points_judged": total_syncs, "notification_calls": total_calls,
         "events_validated": total_events, "impl_panics": panics,
         "impl_panic_classes": {"%s: %s" % (k[0], k[1][:80]): v for k, v in panic_seen.items()}, "anti_reorg_delay": ard,
-        "known_finding_waived_sync_points": waived, "binding_selftest": st, "exhaustive": False,
+        "known_finding_waived_sync_points": waived, "waived_by_class": waived_by_class, "binding_selftest": st, "exhaustive": False,
     }
     vlib.write_evidence(PID, tier, seed, "model_checking", cov, [
         "a reorganisation deeper than ANTI_REORG_DELAY for a transaction that was already final is outside the "
